@@ -700,7 +700,8 @@ class ClickHouseParser(parser.Parser):
             # https://clickhouse.com/docs/en/sql-reference/statements/select/array-join
             if join.kind == "ARRAY":
                 for table in join.find_all(exp.Table):
-                    table.replace(table.to_column())
+                    if table.parts:
+                        table.replace(table.to_column())
 
         return join
 
@@ -983,7 +984,7 @@ class ClickHouseParser(parser.Parser):
         # A single-value tuple is generated as "(x)", which is parsed back into a Paren
         # rather than a Tuple, so it's unwrapped here to keep this rewrite idempotent
         expressions = value.expressions
-        if values and not isinstance(expressions[-1], exp.Tuple):
+        if values and expressions and not isinstance(expressions[-1], exp.Tuple):
             value.set(
                 "expressions",
                 [self.expression(exp.Tuple(expressions=[expr.unnest()])) for expr in expressions],
